@@ -16,6 +16,13 @@
 From Verif Require Export Bits F16.
 Open Scope N_scope.
 
+Require Coq.Strings.String. Import String.StringSyntax.
+(* hash of the token-stream pin (tools/translators/gen_c14.py, the c/ lines of pins/c14c.txt: 12 renderings of serialization.h)
+   of the header text this file, CPrimsW.v and F16.v model; Properties/C14.v requires Gen_Pin_c14c.pin_c14c_sha_c to be this one *)
+Local Open Scope string_scope.
+Definition modelled_c_header_sha : String.string := "12d92e113a102c1a00203435ab78d129".
+Local Close Scope string_scope.
+
 Definition two64 : N := 18446744073709551616.
 Definition w64 (x : N) : N := x mod two64.
 
